@@ -57,8 +57,7 @@ def clears_all(rep, rule, u, struct, clear_fn, traverse_fn):
     rep.require(bool(fields), 'struct %s has no PyObject* members' % struct)
     ss = csem.returning(csem.S(u, clear_fn))
     for fld in fields:
-        bad = [ps for ps in ss if not any(csem.args_of(e) == ['self->' + fld]
-                                          for e in csem.calls(ps, 'Py_CLEAR'))]
+        bad = [ps for ps in ss if not csem.path_clears(ps, fld)]
         ok = bool(ss) and not bad
         ccheck(rep, rule, clear_fn, ok,
                'Py_CLEAR(self->%s) on every path' % fld if ok else
